@@ -272,7 +272,7 @@ pub struct FrontendCtx<'a, R: FileManager> {
     typing_values: Vec<ModuleItemAddress>,
     typing_exprs: Vec<(usize, bool)>,
     /// named unions a conditional type is being distributed over (type A = B | "x"; type B = A | "y")
-    distributing_over: Vec<RuntypeUUID>,
+    distributing_over: Vec<(BffFileName, u32, RuntypeUUID)>,
 }
 
 #[derive(Debug)]
@@ -3674,6 +3674,17 @@ impl<'a, R: FileManager> FrontendCtx<'a, R> {
         }
     }
 
+    fn is_distributing_over(
+        &self,
+        file_name: &BffFileName,
+        t: &TsConditionalType,
+        r: &RuntypeUUID,
+    ) -> bool {
+        self.distributing_over
+            .iter()
+            .any(|(f, lo, n)| f == file_name && *lo == t.span.lo.0 && n == r)
+    }
+
     fn convert_conditional_type(
         &mut self,
         t: &TsConditionalType,
@@ -3698,7 +3709,7 @@ impl<'a, R: FileManager> FrontendCtx<'a, R> {
                 .rev()
                 .find(|(n, _)| id.sym == *n)
                 .cloned()
-            && !matches!(&bound.kind, RuntypeKind::Ref(r) if self.distributing_over.contains(r))
+            && !matches!(&bound.kind, RuntypeKind::Ref(r) if self.is_distributing_over(&file_name, t, r))
             && let Some(members) = self.members_to_distribute_over(&bound)
         {
             let mut out = vec![];
@@ -3706,13 +3717,17 @@ impl<'a, R: FileManager> FrontendCtx<'a, R> {
                 RuntypeKind::Ref(r) => Some(r.clone()),
                 _ => None,
             };
+            // (the guard belongs to THIS conditional type: another conditional type met while this one
+            // distributes - Inner<U> inside Outer<U> - distributes over the same union on its own)
             if let Some(r) = &named {
-                self.distributing_over.push(r.clone());
+                self.distributing_over
+                    .push((file_name.clone(), t.span.lo.0, r.clone()));
             }
             let mut failed = None;
             for m in &members {
                 // a member that names a union already being distributed over adds nothing
-                if matches!(&m.kind, RuntypeKind::Ref(n) if self.distributing_over.contains(n)) {
+                if matches!(&m.kind, RuntypeKind::Ref(n) if self.is_distributing_over(&file_name, t, n))
+                {
                     continue;
                 }
                 self.type_application_stack.push((name.clone(), m.clone()));
